@@ -540,3 +540,5 @@ func lenAtLeastOne(facts []Atom, b Binds, pat string) (string, bool) {
 	}
 	return "", false
 }
+
+func typeString(t types.Type) string { return types.TypeString(t, relQual) }
